@@ -67,16 +67,22 @@ theorem stepThread_pc_ne_idle {c : Cfg} {s s' : State} {t : Tid} {tok : Tok} {sp
   simp [hp] at h
 
 
+@[simp] theorem waitOrGo_pc (th : Th) : ((waitOrGo th).pc = .idle) = False := by
+  unfold waitOrGo; split <;> simp
+
+@[simp] theorem enterCb_pc (th : Th) : ((enterCb th).pc = .idle) = False := by
+  unfold enterCb; split <;> simp
+
 /-- split the step hypothesis `h` into its leaves, substitute the result state, simplify the goal -/
 macro "leaves" h:ident : tactic =>
-  `(tactic| ((repeat' split at $h:ident) <;> (try (simp at $h:ident; done)) <;>
+  `(tactic| ((try dsimp only at $h:ident) <;> (repeat' split at $h:ident) <;> (try (simp at $h:ident; done)) <;>
       (simp only [Option.some.injEq, Prod.mk.injEq] at $h:ident) <;>
-      (first | (obtain ⟨hres, -⟩ : _ ∧ _ := $h:ident; subst hres) | subst $h:ident) <;> (simp [State.setTh])))
+      (first | (obtain ⟨hres, -⟩ : _ ∧ _ := $h:ident; subst hres) | subst $h:ident) <;>
+      (try (simp [State.setTh]; done)) <;> (try (simp only [State.setTh]; split <;> (try split) <;> simp; done))))
 
 theorem finish_pc {c : Cfg} {S R : State} {t : Tid} {th : Th} (h : finish c S t th = some R) : (R.th t).pc ≠ .idle := by
   unfold finish at h
   leaves h
-
 
 theorem settle_pc {c : Cfg} {S R : State} {t : Tid} {th : Th} (h : settle c S t th = some R) : (R.th t).pc ≠ .idle := by
   unfold settle at h
@@ -84,16 +90,10 @@ theorem settle_pc {c : Cfg} {S R : State} {t : Tid} {th : Th} (h : settle c S t 
   · leaves h
   · exact finish_pc h
 
-theorem waitOrGo_pc (th : Th) : (waitOrGo th).pc ≠ .idle := by
-  unfold waitOrGo; split <;> simp
-
-theorem enterCb_pc (th : Th) : (enterCb th).pc ≠ .idle := by
-  unfold enterCb; split <;> simp
-
 theorem segDone_pc {c : Cfg} {S R : State} {t : Tid} {th : Th} (h : segDone c S t th = some R) : (R.th t).pc ≠ .idle := by
   unfold segDone at h
   split at h
-  · simp only [Option.some.injEq] at h; subst h; simpa [State.setTh] using waitOrGo_pc _
+  · leaves h
   · exact settle_pc h
 
 theorem enterSt_pc {c : Cfg} {S R : State} {t : Tid} {th : Th} (h : enterSt c S t th = some R) : (R.th t).pc ≠ .idle := by
@@ -102,11 +102,17 @@ theorem enterSt_pc {c : Cfg} {S R : State} {t : Tid} {th : Th} (h : enterSt c S 
   · leaves h
   · exact segDone_pc h
 
-theorem startAlloc_pc (c : Cfg) (S : State) (t : Tid) (th : Th) (n : Nat) (k : Cont) :
-    ((startAlloc c S t th n k).th t).pc ≠ .idle := by simp [startAlloc, State.setTh]
+@[simp] theorem startAlloc_pc (c : Cfg) (S : State) (t : Tid) (th : Th) (n : Nat) (k : Cont) :
+    (((startAlloc c S t th n k).th t).pc = .idle) = False := by simp [startAlloc, State.setTh]
 
-theorem startDealloc_pc (c : Cfg) (S : State) (t : Tid) (th : Th) (k : Cont) :
-    ((startDealloc c S t th k).th t).pc ≠ .idle := by simp [startDealloc, State.setTh]
+@[simp] theorem startDealloc_pc (c : Cfg) (S : State) (t : Tid) (th : Th) (k : Cont) :
+    (((startDealloc c S t th k).th t).pc = .idle) = False := by simp [startDealloc, State.setTh]
+
+/-- steps that end in a tail function -/
+macro "tails" h:ident lem:ident : tactic =>
+  `(tactic| ((try dsimp only at $h:ident) <;> (repeat' split at $h:ident) <;> (try (simp at $h:ident; done)) <;>
+      (simp only [Option.map_eq_some_iff, Prod.mk.injEq] at $h:ident) <;>
+      (obtain ⟨R, hR, hres, -⟩ := $h:ident) <;> (subst hres) <;> (exact $lem hR)))
 
 /-- no internal step ends a call: only the `ret` event makes a thread idle -/
 theorem stepThread_not_idle {c : Cfg} {s s' : State} {t : Tid} {tok : Tok} {spur : Bool} {l : Option Act}
@@ -115,65 +121,40 @@ theorem stepThread_not_idle {c : Cfg} {s s' : State} {t : Tid} {tok : Tok} {spur
   split at h
   · simp at h
   · simp at h
-  · unfold stepBLoop at h
-    repeat' split at h
-    all_goals (try (simp at h; done))
-    all_goals simp only [Option.some.injEq, Prod.mk.injEq] at h
-    all_goals obtain ⟨hres, -⟩ := h
-    all_goals subst hres
-    all_goals first | (simp [State.setTh]; done) | exact startAlloc_pc _ _ _ _ _ _
-  · unfold stepTkt at h; leaves h; exact waitOrGo_pc _
-  · unfold stepRdVer at h; leaves h; exact waitOrGo_pc _
-  · unfold stepRdOpp at h; leaves h; split <;> simp
+  · unfold stepBLoop at h; leaves h
+  · unfold stepTkt at h; leaves h
+  · unfold stepRdVer at h; leaves h
+  · unfold stepRdOpp at h; leaves h
   · unfold stepCIdx at h; leaves h
-  · unfold stepCVer at h; leaves h; split <;> simp
+  · unfold stepCVer at h; leaves h
   · unfold stepCCas at h; leaves h
   · unfold stepCAcq at h; leaves h
   · unfold stepCCb at h; leaves h
   · unfold stepCRel at h; leaves h
   · unfold stepCSt at h; leaves h
-  · unfold stepFAcq at h; leaves h; exact enterCb_pc _
-  · unfold stepFCb at h; leaves h; exact enterCb_pc _
-  · unfold stepFRel at h
-    simp only [Option.map_eq_some_iff, Prod.mk.injEq] at h
-    obtain ⟨R, hR, rfl, -⟩ := h
-    exact enterSt_pc hR
-  · unfold stepFSt at h; dsimp only at h
-    repeat' split at h
-    all_goals (try (simp at h; done))
-    all_goals simp only [Option.map_eq_some_iff, Prod.mk.injEq] at h
-    all_goals obtain ⟨R, hR, rfl, -⟩ := h
-    all_goals exact enterSt_pc hR
-  · unfold stepRem at h
-    repeat' split at h
-    all_goals (try (simp at h; done))
-    all_goals simp only [Option.map_eq_some_iff, Prod.mk.injEq] at h
-    all_goals obtain ⟨R, hR, rfl, -⟩ := h
-    all_goals exact settle_pc hR
+  · unfold stepFAcq at h; leaves h
+  · unfold stepFCb at h; leaves h
+  · unfold stepFRel at h; tails h enterSt_pc
+  · unfold stepFSt at h; tails h enterSt_pc
+  · unfold stepRem at h; tails h settle_pc
   · unfold stepDIdx at h; leaves h
-  · unfold stepDVer at h; leaves h; split <;> simp
+  · unfold stepDVer at h; leaves h
   · unfold stepDClaim at h; leaves h
   · unfold stepDAcq at h; leaves h
-  · unfold stepDCb at h; leaves h; split <;> simp
+  · unfold stepDCb at h; leaves h
   · unfold stepDRel at h; leaves h
-  · unfold stepDSt at h; leaves h; split <;> (try split) <;> simp
-  · unfold stepBdNext at h
-    repeat' split at h
-    all_goals (try (simp at h; done))
-    all_goals simp only [Option.some.injEq, Prod.mk.injEq] at h
-    all_goals obtain ⟨hres, -⟩ := h
-    all_goals subst hres
-    all_goals first | (simp [State.setTh]; done) | exact startDealloc_pc _ _ _ _ _
+  · unfold stepDSt at h; leaves h
+  · unfold stepBdNext at h; leaves h
   · unfold stepPRecycle at h; leaves h
   · unfold stepGPop at h; leaves h
   · unfold stepGPush at h; leaves h
   · unfold stepPDestroy at h; leaves h
   · unfold stepSTkt at h; leaves h
-  · unfold stepDlWait at h; leaves h; split <;> simp
+  · unfold stepDlWait at h; leaves h
   · unfold stepDlCb at h; leaves h
   · unfold stepDlPub at h; leaves h
   · unfold stepSIdx at h; leaves h
-  · unfold stepSVer at h; leaves h; split <;> simp
+  · unfold stepSVer at h; leaves h
   · unfold stepSIdx2 at h; leaves h
   · unfold stepSCas at h; leaves h
   · unfold stepSCb at h; leaves h
